@@ -23,3 +23,5 @@ pub mod d6;
 pub mod t15;
 pub mod a8;
 pub mod w3;
+pub mod g5;
+pub mod g6;
